@@ -81,12 +81,19 @@ CHECKS["C04"] = dict(
          "states later, what the formula means now, in every world of every THT interpretation, any nesting (termination is part of "
          "the definition); unfold_cnf — unfold_formula is distribution into CNF; clauses_at_step combines them; shift_iff — "
          "time-stratified shifting (moving off-time disjuncts into the body under default negation, as translate_clause does) "
-         "preserves stable models; neg_is_default / choice_reading.  PARTIAL: the end-to-end statement C04_statement is kept visible "
+         "preserves stable models; emitted_rule_reads_clause / head_as_body / emitted_rules_total — the rule ClauseToRule / "
+         "translate_clause write for a clause (atoms of the current step as head, the negated literal of the body formula of every "
+         "shifted part, head_formula_to_body_formula) holds in a here-and-there world exactly when the clause holds with its shifted "
+         "parts read in the there-world (double negation), for every clause of every head formula at every distance; on total traces "
+         "all rules of a step hold iff the formula holds at its own step; neg_is_default / choice_reading.  PARTIAL: the end-to-end "
+         "statement C04_statement is kept visible "
          "and is validated, not proved: the composition with incremental grounding (domain rule ranges, head atoms that are facts, "
          "several formulas per state) is exercised by the search against the brute-force THT equilibrium enumerator on the head "
          "operator-pair grid, interaction programs and random programs.  Tie: representation equality of create_formula / "
          "shift_formula / unfold_formula between implementation and model at shifts 0..3 (size-capped); the model's time ranges vs "
-         "the real transform_theory_atom; the real IntervalSet vs the model.",
+         "the real transform_theory_atom; the real IntervalSet vs the model; every rule really written for a head formula during a run "
+         "(translate_clause wrapped: the atom base's view of the clause's atoms, the literals of the body formulas) vs the model's "
+         "ruleShape, clause by clause, element by element.",
     design="§6 C04", technique="Lean 4 proof (THT equivalence of shifting/unfolding, stratified shifting lemma; partial end-to-end) + function-level correspondence")
 
 CHECKS["C16"] = dict(
@@ -125,7 +132,12 @@ CHECKS["C13"] = dict(
          "rules on fresh atoms, integrity constraints and negative-body definitions of fresh atoms (`w :- not not t`) to a program never "
          "invents an answer set of the old atoms, and when the added constraints hold exactly if each fresh atom has the value a "
          "function of the old atoms gives it, cutting is a bijection of stable models — nothing created, destroyed or duplicated.  "
-         "PARTIAL: the two hypotheses are checked on the implementation, not derived from a model of its clause generation: (H1) "
+         "definition_chain_conservative with bool_group_defines / tel_group_defines / eq_group_defines / placeholder_defines: the "
+         "clause groups the code writes (clause model, tied to the code literal for literal) for a Boolean connective, a temporal "
+         "induction step, an equivalence, and the fixed external of a `>` beyond the horizon are clause definitions, and every chain of "
+         "clause definitions (each fresh atom new to the program and the definitions before it) is a conservative extension.  "
+         "PARTIAL: that clingo's multi-shot state after add_external(Free) / release_external is this per-call program is the "
+         "solver's contract; checked on the implementation: (H1) "
          "every backend statement recorded while body formulas are translated is a fresh atom, a choice on one, an external on one or "
          "an integrity constraint; (H2) the recorded literal values solve the equations in every answer set (L4), also when the "
          "observer is another spelling of one of the program's own formulas (shared formula objects).  Search: P vs P + observer "
@@ -152,8 +164,12 @@ CHECKS["C11"] = dict(
          "atoms fail unless normal head or inside a constraint; past/initially atoms fail exactly in positive head positions); "
          "accept_regular — __get_param on '^l core '^t (any l, t, any clean core incl. __ prefixes and inner primes) computes the "
          "shift t-l, rejects iff (fail_future ∧ t>l) ∨ (fail_past ∧ t<l); prime_uniform; reject_iff / accepts_iff_doc — rejection "
-         "exactly for the documented placements (specification TelSpec.docAccepts); theory_guard for &tel/&del body atoms.  The "
-         "traversal-state table per position is hand-transcribed; it is validated on every run against the real transform on the "
+         "exactly for the documented placements (specification TelSpec.docAccepts); theory_guard for &tel/&del body atoms; "
+         "element_terms_guard — a theory element of a body &tel or a &del atom is rejected exactly if it has not exactly one term "
+         "(checks regenerated from visit_TheoryAtom); flags_from_classification / classification_spec — the constraint and normal "
+         "columns of the position table are the values of is_constraint / is_normal (regenerated from transformers/transformer.py) "
+         "on the statement the position lives in.  The "
+         "head column of the traversal-state table and the statement shape per position are hand-transcribed; the table it is validated on every run against the real transform on the "
          "full grid (30 positions with 40 templates × 63 atom forms × parts) and random nestings; theory-atom placements, primes "
          "and head-forbidden operators in formulas, multi-term elements are checked on the real code.",
     design="§6 C11", technique="Lean 4 proof (prime arithmetic for all names; acceptance = documented categories via extracted flag expressions) + exhaustive position×form grid against the real transform")
@@ -189,8 +205,11 @@ CHECKS["C15"] = dict(
 CHECKS["C14"] = dict(
     text="Theorems (Lean 4): sorted_iteration_independent — whatever order a hash-ordered container yields its elements in (any "
          "permutation), sorting by a total order gives one list, which is why future_sigs and the bridge rules (sorted(...) over the "
-         "set of future predicates) do not depend on the hash seed; the model of the translation is a pure function of the program "
-         "(parts_function_of_rules, future_function_of_rules), so independence of earlier or interleaved runs holds by construction.  "
+         "set of future predicates) do not depend on the hash seed; variable_tuple_order_independent — the argument tuple of the "
+         "auxiliary atom of a head formula (get_variables) depends on the set of its variables only; "
+         "ranges_insertion_order_independent — the time points covered by the merged ranges of a head-formula atom do not depend on "
+         "the order in which they were added; the model of the translation is a pure function of the program, so independence of "
+         "earlier or interleaved runs holds by construction on the model side.  "
          "PARTIAL: CPython hash randomisation, module state and re-entrancy cannot be exhibited by the model; they are exercised on "
          "the real code: PYTHONHASHSEED ∈ {0,1,2,3,12345,…} in subprocesses, repeated / interleaved / re-entrant translations and "
          "solving runs in one process — statements, future_sigs, parts and answer sets identical — on programs with several future "
@@ -201,14 +220,21 @@ CHECKS["C06"] = dict(
     text="Theorems (Lean 4) about telingo's own part in treating schemata: time_arg_uniform — TermTransformer (transformers/term.py, "
          "modelled on predicate / classical-negation / pool terms incl. the side effects on future_predicates and max_shift) adds the "
          "time parameter uniformly: rewriting commutes with pool expansion and classical negation, every instance gets the parameters "
-         "its own predicate name asks for; max_shift_is_max / future_sign_recorded; symbol_roundtrip — create_symbol applied to the "
+         "its own predicate name asks for; time_arg_commutes_with_substitution — the rewriting never looks at arguments, so rewriting a "
+         "schema atom and then replacing its variables is rewriting the instance; term_conversion_preserves_value — "
+         "theory_term_to_term (arguments of head-formula atoms, n-fold prefixes) yields a plain term with the value of the theory "
+         "term under every assignment (arithmetic, constant folding, tuples); aux_atom_identifies_instance — get_variables returns "
+         "exactly the variables of the head theory atom, each once, ordered by name, so equal auxiliary atoms mean equal instances "
+         "of the head formula; max_shift_is_max / future_sign_recorded; symbol_roundtrip — create_symbol applied to the "
          "theory term by which clingo presents a ground symbol (numbers, strings, #inf/#sup, functions, tuples, classical negation, any "
          "nesting) gives that symbol back; elements_sem / element_sem — the formula built from the ground elements of "
          "`&tel{ f(X) : c(X) }` is the conjunction over the elements of (condition → element formula), for any number of elements in "
          "any order; interval_add / interval_addAll — IntervalSet.add keeps the sorted-disjoint-nonadjacent invariant and the point set "
          "is exactly the union of the added ranges.  PARTIAL: that the grounder computes the instances is clingo's contract; "
-         "commutation of the rewriting with substitution on whole statements (conditions, aggregates, theory atoms) is not proved.  "
-         "Tie: the real TermTransformer vs the model on random atom terms (result, future predicates, max_shift, error class); clingo's "
+         "commutation of the rewriting with substitution on whole statements (conditions, aggregates, theory atoms) is proved for the "
+         "terms of atoms only.  "
+         "Tie: the real TermTransformer vs the model on random atom terms (result, future predicates, max_shift, error class); the real "
+         "theory_term_to_term and get_variables vs the model on random theory terms / head atoms; clingo's "
          "theory terms of random ground symbols vs the model's symTerm and the real create_symbol; the real IntervalSet vs the model; "
          "the L4 equation check on theory atoms with several elements and conditions (incl. equal formulas under different "
          "conditions).  Search: a rule schema over d(1..2) vs its own textual instantiation (variables, pools, intervals, arithmetic, "
